@@ -11,6 +11,7 @@ import MdpaxV.Model.Solvers
 import MdpaxV.Model.SemiAsync
 import MdpaxV.Model.Spaces
 import MdpaxV.Model.Matrices
+import MdpaxV.Model.Shipped
 open MdpaxV
 
 /-! parsing / printing -/
@@ -121,6 +122,13 @@ def minMargin (measure : SState Rat → Option Rat) (step : SState Rat → SStat
 
 def fOptRat : Option Rat → String | some r => fRat r | none => "_"
 
+/-- full tables of a shipped problem: spaces, index of every state, and for every (s,a,e) the successor vector,
+    its index and the reward -/
+def shippedTable (states actions events : List (List Int)) (idx : List Int → Int)
+    (trans : List Int → List Int → List Int → List Int × Rat) : String :=
+  let triples := states.flatMap fun s => actions.flatMap fun a => events.map fun e => trans s a e
+  s!"states={fList2 toString states} actions={fList2 toString actions} events={fList2 toString events} sidx={fList toString (states.map idx)} nxtvec={fList2 toString (triples.map (·.1))} nxt={fList toString (triples.map fun t => idx t.1)} rew={fList fRat (triples.map (·.2))}"
+
 def handle (d : DState) (line : String) : Except String (DState × String) := do
   let toks := (line.trimAscii.toString.splitOn " ").filter (· ≠ "")
   match toks with
@@ -198,6 +206,23 @@ def handle (d : DState) (line : String) : Except String (DState × String) := do
         match buildMatrices p.P tol with
         | .error s a r => pure (d, s!"error=ValueError state={s} action={a} rowsum={fRat r}")
         | .ok Pm Rm => pure (d, s!"P={fList2 fRat (Pm.flatten)} R={fList2 fRat Rm}")
+    | "shippedtab" => do
+        match (← arg a "kind") with
+        | "forest" => do
+            let c : ForestCfg Rat := { S := ← pNat (← arg a "S"), r1 := ← pRat (← arg a "r1"), r2 := ← pRat (← arg a "r2"), p := ← pRat (← arg a "p") }
+            pure (d, shippedTable (forestStates c) forestActions forestEvents forestIdx (forestTrans c))
+        | "demoor" => do
+            let issueS ← arg a "issue"
+            let issueFifo : Bool := issueS == "fifo"
+            let c : DeMoorCfg Rat := { maxDemand := ← pNat (← arg a "D"), m := ← pNat (← arg a "m"), L := ← pNat (← arg a "L"), Q := ← pNat (← arg a "Q"), cv := ← pRat (← arg a "cv"), cs := ← pRat (← arg a "cs"), cw := ← pRat (← arg a "cw"), ch := ← pRat (← arg a "ch"), fifo := issueFifo }
+            pure (d, shippedTable (deMoorStates c) (deMoorActions c) (deMoorEvents c) (deMoorIdx c) (deMoorTrans c))
+        | "hendrix" => do
+            let c : HendrixCfg Rat := { m := ← pNat (← arg a "m"), Qa := ← pNat (← arg a "Qa"), Qb := ← pNat (← arg a "Qb"), costA := ← pRat (← arg a "ca"), costB := ← pRat (← arg a "cb"), priceA := ← pRat (← arg a "pa"), priceB := ← pRat (← arg a "pb") }
+            pure (d, shippedTable (hendrixStates c) (hendrixActions c) (hendrixEvents c) (hendrixIdx c) (hendrixTrans c))
+        | "mirjalili" => do
+            let c : MirjaliliCfg Rat := { maxDemand := ← pNat (← arg a "D"), m := ← pNat (← arg a "m"), Q := ← pNat (← arg a "Q"), cv := ← pRat (← arg a "cv"), cf := ← pRat (← arg a "cf"), cs := ← pRat (← arg a "cs"), cw := ← pRat (← arg a "cw"), ch := ← pRat (← arg a "ch") }
+            pure (d, shippedTable (mirjaliliStates c) (mirjaliliActions c) (mirjaliliEvents c) (mirjaliliIdx c) (mirjaliliTrans c))
+        | k => throw s!"unknown kind {k}"
     | "qrow" => do
         let p ← getP d (← arg a "id")
         let γ ← pRat (← arg a "gamma"); let V ← pList pRat (← arg a "V"); let s ← pNat (← arg a "s")
